@@ -97,6 +97,10 @@ void mp_gcdext(integer_class &gcd, integer_class &s, integer_class &t,
         std::swap(this_t, next_t);
         std::swap(this_r, next_r);
     }
+    // gcdext(0, 0) is g = s = t = 0 (as mpz_gcdext gives)
+    if (this_r == 0) {
+        this_s = 0;
+    }
     // normalize the gcd, s and t
     if (this_r < 0) {
         this_r *= -1;
